@@ -22,7 +22,7 @@ import (
 func simEnable(schedSeed, auxSeed uint64, yieldThr uint32)
 
 //go:linkname simDisable runtime.simDisable
-func simDisable() (picks, multi, yields, sites, hash, diverge uint64)
+func simDisable() (picks, multi, yields, sites, hash, diverge, spins uint64)
 
 //go:linkname simSetPlayback runtime.simSetPlayback
 func simSetPlayback(p *uint8, n int)
@@ -57,8 +57,11 @@ type Stats struct {
 	Sites     uint64 `json:"sites"`
 	SchedHash uint64 `json:"sched_hash"`
 	Diverge   uint64 `json:"diverge"`
-	NDec      int    `json:"ndec"`
-	Overflow  bool   `json:"overflow,omitempty"`
+	// SpinSleeps: virtual-time sleeps the runtime injected because a goroutine
+	// busy-looped at one virtual instant (see rt/mkpatch.py).
+	SpinSleeps uint64 `json:"spin_sleeps,omitempty"`
+	NDec       int    `json:"ndec"`
+	Overflow   bool   `json:"overflow,omitempty"`
 }
 
 // Env is handed to the body of a run.
@@ -168,10 +171,12 @@ func Run(t *testing.T, sc Sched, wantLog, wantDec bool, body func(e *Env)) Outco
 		defer func() {
 			if r := recover(); r != nil {
 				s := fmt.Sprint(r)
-				if strings.Contains(s, "deadlock: main bubble goroutine has exited but blocked goroutines remain") {
+				if strings.Contains(s, "deadlock: main bubble goroutine has exited but blocked goroutines remain") || strings.Contains(s, "deadlock: all goroutines in bubble are blocked") {
 					out.Deadlock = true
-					if i := strings.Index(s, "goroutine "); i >= 0 && wantLog {
-						out.Panic = s
+					if wantLog {
+						buf := make([]byte, 1<<20)
+						buf = buf[:runtime.Stack(buf, true)]
+						out.Panic = s + "\n" + bubbleStacks(string(buf))
 					}
 					return
 				}
@@ -185,8 +190,8 @@ func Run(t *testing.T, sc Sched, wantLog, wantDec bool, body func(e *Env)) Outco
 			body(e)
 		})
 	}()
-	p, m, y, s, h, d := simDisable()
-	out.Stats = Stats{Picks: p, Multi: m, Yields: y, Sites: s, SchedHash: h, Diverge: d}
+	p, m, y, s, h, d, sp := simDisable()
+	out.Stats = Stats{Picks: p, Multi: m, Yields: y, Sites: s, SchedHash: h, Diverge: d, SpinSleeps: sp}
 	n, over := simGetDecisions(nil, 0)
 	out.Stats.NDec, out.Stats.Overflow = n, over
 	if wantDec && n > 0 && !over {
@@ -200,6 +205,17 @@ func Run(t *testing.T, sc Sched, wantLog, wantDec bool, body func(e *Env)) Outco
 		out.Log = e.log
 	}
 	return out
+}
+
+// bubbleStacks keeps the goroutines that belong to a synctest bubble.
+func bubbleStacks(all string) string {
+	var keep []string
+	for _, g := range strings.Split(all, "\n\n") {
+		if strings.Contains(g, "synctest") && !strings.Contains(g, "core.Run(") {
+			keep = append(keep, g)
+		}
+	}
+	return strings.Join(keep, "\n\n")
 }
 
 // Rand is the harness PRNG (splitmix64): deterministic, lock-free, cheap.
